@@ -19,7 +19,7 @@ func c05Plan(tier string) histPlan {
 	if tier == "thorough" {
 		return histPlan{Enum: gen.EnumParams{MaxAdds: []int{5, 4, 3}}, Rand: 150000, Tall: 100}
 	}
-	return histPlan{Enum: gen.EnumParams{MaxAdds: []int{4, 3, 2}}, Rand: 3000, Tall: 3}
+	return histPlan{Enum: gen.EnumParams{MaxAdds: []int{4, 3, 2}}, Rand: 12000, Tall: 6}
 }
 
 var c05Encodings = []string{"canonical", "permuted", "junk", "permuted+junk", "addproof", "subset-of-larger", "cached-proof-subset"}
